@@ -1,3 +1,4 @@
+import Noodles.Props.C14Once
 import Noodles.Props.C14More
 import Noodles.Bgzf.SinkModel
 import Noodles.Bgzf.SinkProof
